@@ -179,6 +179,45 @@ def mutable_result(prog, f) -> str | None:
     return None
 
 
+ONE_SHOT_CTORS = {"graphlib.TopologicalSorter", "builtins.iter", "builtins.map", "builtins.filter", "builtins.zip", "builtins.reversed", "builtins.enumerate", "more_itertools.peekable", "more_itertools.more.peekable", "itertools.chain"}
+
+
+def one_shot_result(prog, f) -> str | None:
+    """Why a function's result can be used only once (iterator, generator, graphlib sorter)."""
+    import ast as _ast
+
+    for n in _ast.walk(f.node):
+        if isinstance(n, (_ast.Yield, _ast.YieldFrom)):
+            return "is a generator function"
+    try:
+        ps = P.paths_of(prog, f)
+    except AnalysisError:
+        return None
+    for p, r in P.returns(ps):
+        if r[0] == "comp" and r[1] == "gen":
+            return "returns a generator expression"
+        if r[0] == "call" and T.refname(r[1]) in ONE_SHOT_CTORS:
+            return f"returns a {T.refname(r[1])} object, which can be consumed only once"
+    return None
+
+
+def r12_2b(prog: Program, rep: Report):
+    memo = prog.memoised_functions()
+    n = 0
+    for q in sorted(memo):
+        f = prog.functions.get(q)
+        if f is None:
+            d = memo[q]
+            tgt = d[d.index("(") + 1 : -1] if "(" in d else None
+            f = prog.functions.get(tgt) if tgt else None
+            if f is None:
+                continue
+        why = one_shot_result(prog, f)
+        n += 1
+        rep.check(why is None, "R12.2", q, f.loc, "memoised result is reusable (no iterator / generator / one-shot sorter)", f"memoised, but {why}: the second consumer of the cache entry finds it exhausted (e.g. graphlib raises 'cannot prepare() more than once' when routines are rebuilt after clearing the factory caches)", detail="one-shot")
+    return n
+
+
 def alias_set(prog, term, memo_mut, depth=0, seen=None) -> set:
     """What the value of `term` may be *identical to*: ('cached', q), ('param', n), ('fresh',), ('other',)."""
     seen = seen or set()
@@ -449,7 +488,7 @@ def r12_8(prog: Program, rep: Report):
 
 def run(prog: Program, rep: Report, tier: str):
     rep.rule("R12.1", "no call-time state write that is read back (frozen latches excepted)", floor=3)
-    rep.rule("R12.2", "memoised mutable results do not escape through routine/API returns", floor=1)
+    rep.rule("R12.2", "memoised mutable results do not escape through routine/API returns; no memoised one-shot objects", floor=40)
     rep.rule("R12.3", "key granularity of memoised functions (triaged candidates)", floor=5)
     rep.rule("R12.4", "memoised functions are free of ambient reads", floor=40)
     rep.rule("R12.5", "memoised decoders receive hashable carriers (shared with R14.3)", floor=1)
@@ -459,6 +498,7 @@ def run(prog: Program, rep: Report, tier: str):
     ct = call_time_functions(prog)
     r12_1(prog, rep, ct)
     r12_2(prog, rep)
+    r12_2b(prog, rep)
     r12_3(prog, rep)
     r12_4(prog, rep)
     # R12.5
